@@ -13,6 +13,8 @@ import (
 	"fmt"
 	"math"
 	"math/big"
+	"runtime"
+	"runtime/debug"
 	"strconv"
 	"strings"
 
@@ -565,16 +567,32 @@ func layoutClass(s string) string {
 	return "int"
 }
 
+func layoutCode(s []byte) uint32 {
+	if i := bytes.IndexByte(s, 'e'); i >= 0 {
+		if s[i+1] == '-' {
+			return 2
+		}
+		return 1
+	}
+	if bytes.IndexByte(s, '.') >= 0 {
+		if bytes.HasPrefix(s, []byte("0.")) || bytes.HasPrefix(s, []byte("-0.")) {
+			return 3
+		}
+		return 4
+	}
+	return 0
+}
+
 type f64Args struct {
 	Stratum string   `json:"stratum"`
 	Bits    []uint64 `json:"bits"`
-	Mid     bool     `json:"mid,omitempty"` // also decode the midpoint literals above each value
+	Mid     int      `json:"mid,omitempty"` // n>0: also decode the midpoint literals above every n-th value
 }
 
 type f32Args struct {
 	Stratum string   `json:"stratum"`
 	Bits    []uint32 `json:"bits"`
-	Mid     bool     `json:"mid,omitempty"`
+	Mid     int      `json:"mid,omitempty"`
 }
 
 // checkFloat: all formatting routes agree on a text that the exact checker accepts, and
@@ -725,9 +743,8 @@ func sweep32(w *run.W, a *sweepArgs) {
 		}
 		f := float64(math.Float32frombits(pat))
 		sbuf = jsontext.AppendFloat(sbuf[:0], f, 32)
-		s := string(sbuf)
-		if c := chk.Check(f, 32, s); c != "" {
-			violFmt(w, c, "float32", "AppendFloat", f, 32, s)
+		if c := chk.CheckBytes(f, 32, sbuf); c != "" {
+			violFmt(w, c, "float32", "AppendFloat", f, 32, string(sbuf))
 		}
 		checked++
 		if len(pats) == 0 {
@@ -741,19 +758,7 @@ func sweep32(w *run.W, a *sweepArgs) {
 			flush()
 		}
 		// shape: (biased exponent, digit count, layout)
-		key := pat >> 23 & 0xff << 8
-		p, _ := ref.SplitNumber(s)
-		key |= uint32(len(p.Digits)) << 3
-		switch layoutClass(s) {
-		case "exp+":
-			key |= 1
-		case "exp-":
-			key |= 2
-		case "frac":
-			key |= 3
-		case "point":
-			key |= 4
-		}
+		key := pat>>23&0xff<<8 | uint32(chk.K)<<3 | layoutCode(sbuf)
 		if !seen[key] {
 			seen[key] = true
 			w.Shape(fmt.Sprintf("float32|sweep|%#x", key))
@@ -787,7 +792,7 @@ func tokenText(w *run.W, tok jsontext.Token) (string, bool) {
 }
 
 func checkConstructed(w *run.W, a *tokArgs) {
-	one := func(tok jsontext.Token, want string, with64 bool, alt string) {
+	one := func(tok jsontext.Token, origin, want string, with64 bool, alt string) {
 		w.Eval(1)
 		w.Count("token_constructed", 1)
 		lit, ok := tokenText(w, tok)
@@ -803,22 +808,22 @@ func checkConstructed(w *run.W, a *tokArgs) {
 			return
 		}
 		if with64 {
-			checkAccessors(w, tok, lit, p, "constructed", false, alt)
+			checkAccessors(w, tok, lit, p, origin, false, alt)
 		}
 		w.Shape("token-constructed|" + litForm(p) + "|" + fmt.Sprint(with64))
 	}
 	for _, v := range a.Ints {
-		one(jsontext.Int(v), big.NewInt(v).String(), true, "")
+		one(jsontext.Int(v), "constructed-int", big.NewInt(v).String(), true, "")
 	}
 	for _, v := range a.Uints {
-		one(jsontext.Uint(v), new(big.Int).SetUint64(v).String(), true, "")
+		one(jsontext.Uint(v), "constructed-uint", new(big.Int).SetUint64(v).String(), true, "")
 	}
 	for _, b := range a.Floats {
 		f := math.Float64frombits(b)
 		if math.IsNaN(f) || math.IsInf(f, 0) {
 			continue
 		}
-		one(jsontext.Float(f), "", true, exactDecimal(f))
+		one(jsontext.Float(f), "constructed-float", "", true, exactDecimal(f))
 	}
 	for _, b := range a.F32 {
 		f := math.Float32frombits(b)
@@ -826,7 +831,7 @@ func checkConstructed(w *run.W, a *tokArgs) {
 			continue
 		}
 		tok := jsontext.Float32(f)
-		one(tok, "", false, "")
+		one(tok, "constructed-float32", "", false, "")
 		// a token made from a float32 reports that float32 and its exact widening
 		g, err := tok.Float32()
 		h, err2 := tok.Float()
@@ -894,13 +899,13 @@ var M = &run.Monitor{
 func main() {
 	run.Def(M, "f32sweep", sweep32)
 	run.Def(M, "f64", func(w *run.W, a *f64Args) {
-		for _, b := range a.Bits {
-			checkFloat(w, math.Float64frombits(b), 64, a.Stratum, a.Mid)
+		for i, b := range a.Bits {
+			checkFloat(w, math.Float64frombits(b), 64, a.Stratum, a.Mid > 0 && i%a.Mid == 0)
 		}
 	})
 	run.Def(M, "f32", func(w *run.W, a *f32Args) {
-		for _, b := range a.Bits {
-			checkFloat(w, float64(math.Float32frombits(b)), 32, a.Stratum, a.Mid)
+		for i, b := range a.Bits {
+			checkFloat(w, float64(math.Float32frombits(b)), 32, a.Stratum, a.Mid > 0 && i%a.Mid == 0)
 		}
 	})
 	run.Def(M, "lits", func(w *run.W, a *litArgs) {
@@ -914,6 +919,9 @@ func main() {
 	})
 	run.Def(M, "tokens", checkConstructed)
 	M.Gen = generate
+	// the workers are single-threaded and allocate little that lives: keep the collector quiet
+	debug.SetGCPercent(800)
+	runtime.GOMAXPROCS(2)
 	run.Main(M)
 }
 
@@ -951,7 +959,7 @@ func generate(w *run.W) {
 	}
 
 	// (2) float64 strata
-	emit64 := func(stratum string, bits []uint64, mid bool) {
+	emit64 := func(stratum string, bits []uint64, mid int) {
 		const n = 256
 		for i := 0; i < len(bits); i += n {
 			j := min(i+n, len(bits))
@@ -960,7 +968,7 @@ func generate(w *run.W) {
 			}
 		}
 	}
-	emit32 := func(stratum string, bits []uint32, mid bool) {
+	emit32 := func(stratum string, bits []uint32, mid int) {
 		const n = 256
 		for i := 0; i < len(bits); i += n {
 			j := min(i+n, len(bits))
@@ -992,7 +1000,7 @@ func generate(w *run.W) {
 				bits = append(bits, b, b^(1<<63))
 			}
 		}
-		emit64("exp-x-mant", bits, false)
+		emit64("exp-x-mant", bits, w.Pick(37, 5))
 	}
 	around64 := func(f float64, k int) []uint64 {
 		b := math.Float64bits(f)
@@ -1014,7 +1022,7 @@ func generate(w *run.W) {
 		for _, f := range []float64{1e-7, 1e-6, 1e-5, 1e20, 1e21, 1e22, 1e15, 1e16, 1e17, 1e23, 1 << 53, 1 << 63, 1 << 64, 1, 0.1, 0.3, 1e-10, 1e-9} {
 			bits = append(bits, around64(f, 1000)...)
 		}
-		emit64("switch-neighbours", bits, true)
+		emit64("switch-neighbours", bits, w.Pick(7, 1))
 	}
 	{
 		var bits []uint64
@@ -1028,7 +1036,7 @@ func generate(w *run.W) {
 				}
 			}
 		}
-		emit64("pow10", bits, true)
+		emit64("pow10", bits, 1)
 	}
 	{
 		var bits []uint64
@@ -1038,7 +1046,7 @@ func generate(w *run.W) {
 		for b := uint64(0); b <= 2000; b++ {
 			bits = append(bits, b, b|1<<63, 1<<52-1000+b, 0x7fefffffffffffff-b, 0xffefffffffffffff-b)
 		}
-		emit64("ints-subnormal-max", bits, true)
+		emit64("ints-subnormal-max", bits, w.Pick(5, 1))
 	}
 	{
 		r := w.Rand("f64-random")
@@ -1057,7 +1065,7 @@ func generate(w *run.W) {
 				bits = append(bits, math.Float64bits(f))
 			}
 		}
-		emit64("random", bits, false)
+		emit64("random", bits, w.Pick(11, 11))
 	}
 
 	// (3) float32 targeted (all routes)
@@ -1081,7 +1089,7 @@ func generate(w *run.W) {
 		for _, f := range []float32{1e-7, 1e-6, 1e-5, 1e20, 1e21, 1e22, 1e7, 1e8, 1e9, 1 << 24, 1, 0.1, 0.3, 1e-10, 1e10} {
 			bits = append(bits, around32(f, 1000)...)
 		}
-		emit32("switch-neighbours", bits, true)
+		emit32("switch-neighbours", bits, w.Pick(7, 1))
 	}
 	{
 		var bits []uint32
@@ -1115,7 +1123,7 @@ func generate(w *run.W) {
 		for i := 0; i < n; i++ {
 			bits = append(bits, r.Uint32())
 		}
-		emit32("pow10-bounds-exp-random", bits, true)
+		emit32("pow10-bounds-exp-random", bits, w.Pick(3, 3))
 	}
 
 	// (4) integer literals around the bounds
